@@ -1,9 +1,11 @@
 package checks
 
 import (
+	"crypto/sha1"
 	"fmt"
 	"math/rand"
 	"runtime"
+	"strings"
 	"sync"
 	"sync/atomic"
 
@@ -23,6 +25,35 @@ type concCorpus struct {
 	funcs [][]lib.Func // [path][cfg], nil when the path does not parse under that config
 	perr  [][]string   // [path][cfg] parse error ("" when it parses)
 	want  map[[3]int]string
+	// containers beyond every plausible size threshold (1500-element array, 1100-member object, 5000 numbers): evaluated
+	// only by the paths of bigPaths (ground truth for every (path, big document) pair would dominate the run)
+	nSmall   int
+	bigPaths []int
+}
+
+// compactOutcome keeps long outcomes (results on the big documents) as head + digest.
+func compactOutcome(s string) string {
+	if len(s) <= 1024 {
+		return s
+	}
+	h := sha1.Sum([]byte(s))
+	return fmt.Sprintf("%s… (len=%d sha1=%x)", s[:160], len(s), h[:8])
+}
+
+func bigDocs() []interface{} {
+	l := make([]interface{}, 1500)
+	for i := range l {
+		l[i] = map[string]interface{}{"a": float64(i % 20), "b": fmt.Sprintf("s%d", i%7), "i": float64(i), "c": []interface{}{float64(i % 3)}}
+	}
+	m := map[string]interface{}{}
+	for i := 0; i < 1100; i++ {
+		m[fmt.Sprintf("k%04d", i)] = map[string]interface{}{"a": float64(i % 5), "b": float64(i)}
+	}
+	nums := make([]interface{}, 5000)
+	for i := range nums {
+		nums[i] = float64(i % 50)
+	}
+	return []interface{}{l, m, map[string]interface{}{"a": nums, "b": map[string]interface{}{"a": float64(1)}, "x": float64(1)}}
 }
 
 func buildCorpus(seed int64) *concCorpus {
@@ -84,6 +115,21 @@ func buildCorpus(seed int64) *concCorpus {
 		cc.docs = append(cc.docs, lib.Decode(dj, i%2 == 1))
 		cc.docJS = append(cc.docJS, dj)
 	}
+	cc.nSmall = len(cc.docs)
+	for i, d := range bigDocs() {
+		cc.docs = append(cc.docs, d)
+		cc.docJS = append(cc.docJS, fmt.Sprintf("<big document %d: %s>", i, short(lib.JS(d), 120)))
+	}
+	// the paths that also run on the big documents: root-level filters first (their operand lists are as long as the container), then every 12th path
+	for i, t := range cc.texts {
+		if (strings.HasPrefix(t, "$[?(") && len(cc.bigPaths) < 14 && i%3 == 0) || i%40 == 0 {
+			cc.bigPaths = append(cc.bigPaths, i)
+		}
+	}
+	isBig := map[int]bool{}
+	for _, i := range cc.bigPaths {
+		isBig[i] = true
+	}
 	// sequential ground truth
 	cc.funcs = make([][]lib.Func, len(cc.texts))
 	cc.perr = make([][]string, len(cc.texts))
@@ -102,7 +148,10 @@ func buildCorpus(seed int64) *concCorpus {
 			}
 			cc.funcs[i][j] = po.F
 			for d := range cc.docs {
-				cc.want[[3]int{i, j, d}] = outcomeString(lib.Call(po.F, cc.docs[d]))
+				if d >= cc.nSmall && !isBig[i] {
+					continue
+				}
+				cc.want[[3]int{i, j, d}] = compactOutcome(outcomeString(lib.Call(po.F, cc.docs[d])))
 			}
 		}
 	}
@@ -151,7 +200,7 @@ func init() {
 						c.Cover("build:plain")
 					}
 				},
-				Required: []string{"build:race", "build:plain", "op:shared-call", "op:parse", "op:retrieve", "g:2", "g:16", "mix:mixed", "mix:eval-only"},
+				Required: []string{"build:race", "build:plain", "op:shared-call", "op:parse", "op:retrieve", "g:2", "g:16", "mix:mixed", "mix:eval-only", "load:hot-set", "doc:big"},
 			}
 		},
 	})
@@ -179,7 +228,21 @@ func runC06(c *harness.Ctx, cc *concCorpus, opsPerG int) {
 	if procs == 1 || procs == 2 {
 		opsPerG = opsPerG * procs / 4 // the same goroutines on one or two Ps take proportionally longer
 	}
+	// hot set: in a third of the runs half of the operations go to five (path, configuration, document) triples and 2% to one
+	// triple on a big document, so that the SAME parsed function is inside the library on several goroutines at once
+	var hot [][3]int
+	if c.K%3 == 1 {
+		for len(hot) < 6 {
+			h := [3]int{r.Intn(len(cc.texts)), r.Intn(len(cc.cfgs)), r.Intn(cc.nSmall)}
+			if len(hot) < 1 {
+				h[0], h[2] = cc.bigPaths[r.Intn(len(cc.bigPaths))], cc.nSmall+r.Intn(len(cc.docs)-cc.nSmall)
+			}
+			hot = append(hot, h)
+		}
+		c.Cover("load:hot-set")
+	}
 	var wg sync.WaitGroup
+	totalBig := 0
 	var total int64
 	var mu sync.Mutex
 	type mismatch struct{ op, path, doc, want, got string }
@@ -191,13 +254,14 @@ func runC06(c *harness.Ctx, cc *concCorpus, opsPerG int) {
 		go func() {
 			defer wg.Done()
 			rr := rand.New(rand.NewSource(seed))
-			n := 0
+			n, bigOps := 0, 0
 			mine := map[uint32]struct{}{}
 			defer func() {
 				mu.Lock()
 				for k := range mine {
 					seenOps[k] = struct{}{}
 				}
+				totalBig += bigOps
 				mu.Unlock()
 			}()
 			report := func(op string, i, d int, want, got string) {
@@ -208,7 +272,19 @@ func runC06(c *harness.Ctx, cc *concCorpus, opsPerG int) {
 				mu.Unlock()
 			}
 			for ; n < opsPerG; n++ {
-				i, j, d := rr.Intn(len(cc.texts)), rr.Intn(len(cc.cfgs)), rr.Intn(len(cc.docs))
+				i, j, d := rr.Intn(len(cc.texts)), rr.Intn(len(cc.cfgs)), rr.Intn(cc.nSmall)
+				if rr.Intn(24) == 0 {
+					i, d = cc.bigPaths[rr.Intn(len(cc.bigPaths))], cc.nSmall+rr.Intn(len(cc.docs)-cc.nSmall)
+				}
+				if len(hot) > 0 {
+					switch x := rr.Intn(48); {
+					case x == 0:
+						i, j, d = hot[0][0], hot[0][1], hot[0][2] // the hot triple on a big document (each such call costs milliseconds)
+					case x < 24:
+						h := hot[1+rr.Intn(len(hot)-1)]
+						i, j, d = h[0], h[1], h[2]
+					}
+				}
 				op := rr.Intn(10)
 				switch mix {
 				case 1:
@@ -223,13 +299,16 @@ func runC06(c *harness.Ctx, cc *concCorpus, opsPerG int) {
 					kind = 1
 				}
 				mine[kind<<28|uint32(i)<<12|uint32(j)<<8|uint32(d)] = struct{}{}
+				if d >= cc.nSmall {
+					bigOps++ // no shared state touched here: a lock in this loop would order the goroutines for the race detector
+				}
 				switch {
 				case op < 4:
 					f := cc.funcs[i][j]
 					if f == nil {
 						continue
 					}
-					if got, want := outcomeString(lib.Call(f, cc.docs[d])), cc.want[[3]int{i, j, d}]; got != want {
+					if got, want := compactOutcome(outcomeString(lib.Call(f, cc.docs[d]))), cc.want[[3]int{i, j, d}]; got != want {
 						report("call of a shared parsed function", i, d, want, got)
 					}
 				case op < 7:
@@ -244,7 +323,7 @@ func runC06(c *harness.Ctx, cc *concCorpus, opsPerG int) {
 					case cc.perr[i][j] != "":
 						report("Parse", i, d, cc.perr[i][j], "parsed successfully")
 					default:
-						if got, want := outcomeString(lib.Call(po.F, cc.docs[d])), cc.want[[3]int{i, j, d}]; got != want {
+						if got, want := compactOutcome(outcomeString(lib.Call(po.F, cc.docs[d]))), cc.want[[3]int{i, j, d}]; got != want {
 							report("call of a freshly parsed function", i, d, want, got)
 						}
 					}
@@ -254,7 +333,7 @@ func runC06(c *harness.Ctx, cc *concCorpus, opsPerG int) {
 					if cc.perr[i][j] != "" {
 						want = "ERR(" + cc.perr[i][j] + ")"
 					}
-					if got := outcomeString(o); got != want {
+					if got := compactOutcome(outcomeString(o)); got != want {
 						report("Retrieve", i, d, want, got)
 					}
 				}
@@ -263,6 +342,10 @@ func runC06(c *harness.Ctx, cc *concCorpus, opsPerG int) {
 		}()
 	}
 	wg.Wait()
+	if totalBig > 0 {
+		c.Cover("doc:big")
+		c.TallyN("operations_on_big_documents", totalBig)
+	}
 	for k := range seenOps {
 		c.NonTrivial(fmt.Sprintf("op %08x", k))
 	}
